@@ -910,7 +910,10 @@ pub fn scenario_shape(tier: &str, base_seed: u64, g: u64) -> Scenario {
         symlinks: BTreeMap::new(),
     };
     // ---- the source --------------------------------------------------------------------------
-    let stem = STEMS[r.usize(STEMS.len())];
+    let stem = STEMS[r.usize(STEMS.len())].to_string();
+    // one source in twelve has a name that is not valid UTF-8 (a Latin-1 umlaut, a stray byte)
+    let stem = if r.chance(1, 12) { format!("Ger{}t{}", raw_byte_char([0xE4u8, 0xFF, 0x80, 0xC3][r.usize(4)]), if r.chance(1, 2) { " 2" } else { "" }) } else { stem };
+    let stem = stem.as_str();
     let ext = EXTS[r.usize(EXTS.len())];
     let ext = if stem == "noext" { "" } else { ext };
     let fname = format!("{}{}", stem, ext);
@@ -1343,6 +1346,7 @@ fn account(acc: &mut Acc, sc: &Scenario, out: &RunOut, reference: &Reference, ro
     stats.probe("both_o_and_e_given", parsed.output.is_some() && parsed.eeprom.is_some());
     stats.probe("o_given_e_defaulted_with_eeprom_data", parsed.output.is_some() && parsed.eeprom.is_none() && elen > 0);
     stats.probe("source_in_subdirectory_with_other_cwd", !sc.cwd.is_empty());
+    stats.probe("source_name_that_is_not_utf8", parsed.source.as_ref().map(|o| has_raw(crate::incmodel::basename(o))).unwrap_or(false));
     stats.probe("directory_or_output_names_that_are_not_utf8", sc.argv.iter().any(|a| has_raw(a)) || has_raw(&sc.cwd));
     stats.probe("explicit_output_name_that_is_not_utf8", parsed.output.as_ref().map(|o| has_raw(crate::incmodel::basename(o))).unwrap_or(false) || parsed.eeprom.as_ref().map(|o| has_raw(crate::incmodel::basename(o))).unwrap_or(false));
     stats.probe("pre_existing_longer_output_overwritten", built && sc.stale.keys().any(|k| out.before.get(k) != out.after.get(k)));
@@ -1581,12 +1585,20 @@ pub fn shrink(scv: &Value) -> Vec<Value> {
         }
     }
     if lossy_view(&sc).cwd != sc.cwd || lossy_view(&sc).argv != sc.argv || lossy_view(&sc).files.keys().ne(sc.files.keys()) || lossy_view(&sc).dirs != sc.dirs {
-        // plain names instead of names that are not UTF-8
+        // plain names instead of names that are not UTF-8: everywhere, then everywhere but in
+        // the name of the source and of what is named after it
         let mut s = map_names(&sc, &|x| deraw(x));
         for r in s.rules.iter_mut() {
             r.target = r.target.replace('\u{FFFD}', "a");
         }
         push(s);
+        let stem: String = parse_argv(&sc.argv).source.as_ref().and_then(|p| Path::new(crate::incmodel::basename(p)).file_stem().map(|x| x.to_string_lossy().into_owned())).unwrap_or_default();
+        if has_raw(&stem) {
+            let s = map_names(&sc, &|x| x.split('/').map(|c| if c.starts_with(&stem) { c.to_string() } else { deraw(c) }).collect::<Vec<_>>().join("/"));
+            if serde_json::to_value(&s).ok() != serde_json::to_value(&sc).ok() && sc.rules.iter().all(|r| !r.target.contains('\u{FFFD}')) {
+                push(s);
+            }
+        }
     }
     if sc.fsize_limit.is_some() {
         let mut s = sc.clone();
